@@ -366,6 +366,9 @@ pub fn replay_obj(rep: &mut Report, st: &mut ObjState, rec: &J) {
 		.unwrap_or(false);
 	}
 	let salt = hist.len() + rep.counters["obj_vectors"] as usize;
+	// clone / clone_from (by whatever route, into whatever target) produce an object equal to the source
+	let is_copy = matches!(rec["op"]["op"].as_str(), Some("clone") | Some("clone_from"));
+	let before = if is_copy { Some((o.entries().to_vec(), hash_obj(&o))) } else { None };
 	twin_ok &= guarded(|| {
 		apply(&mut twin, &rec["op"], salt);
 		same_as_rebuilt(&twin)
@@ -379,6 +382,13 @@ pub fn replay_obj(rep: &mut Report, st: &mut ObjState, rec: &J) {
 		}
 	};
 	rep.count("obj_calls");
+	if let Some((es, h0)) = before {
+		let src = Object::from_vec(es);
+		if o != src || src != o || o.cmp(&src) != std::cmp::Ordering::Equal || hash_obj(&o) != h0 || Value::Object(o.clone()) != Value::Object(src.clone()) {
+			rep.mismatch("C14.clone", json!({"what": "the object produced by clone / clone_from differs from its source (eq / cmp / hash)", "vector": rec,
+				"observed": entries_j(o.iter()), "source": entries_j(src.iter())}));
+		}
+	}
 	let post = &rec["post"];
 	let obs_entries = entries_j(o.iter());
 	if obs_entries != post["entries"] {
